@@ -102,6 +102,57 @@ def q_split_compounds(N, pre_max, timeout_ms):
     return out
 
 
+def _loader_cases(rep, PP):
+    """The real load_insn_behavior() on small generated files (path supplied through a patched Conf.get_path)."""
+    import os
+    import tempfile
+    import rzilcompiler.Preprocessor.Hexagon.PreprocessorHexagon as M
+    good = ["insn(A2_x, { RdV = RsV; })", "insn(B_y, { f(1, (2)); })", "insn(C9_z, {" + MARK + "{ a; }" + MARK + " b; })"]
+    want_good = {"A2_x": ["{ RdV = RsV; }"], "B_y": ["{ f(1, (2)); }"], "C9_z": ["{ a; }", "{ b; }"]}
+    cases = [("plain", good, want_good, False),
+             ("line-markers", ['#line 1 "x.h"', good[0], "# 3", good[1], '#line 9 "y.h"', good[2]], want_good, False),
+             ("stray-text", [good[0], "garbage that is not a definition", good[1]], None, True),
+             ("misspelled", [good[0], "isnn(A2_y, { })", good[1]], None, True),
+             ("unresolved-macro", [good[0], "DEF_SHORTCODE(A2_y, { })"], None, True),
+             ("truncated", [good[0], "insn(A2_y, { RdV = 1; }"], None, True),
+             ("no-comma", ["insn(A2_y { })"], None, True)]
+    n = 0
+    for name, lines, want, must_raise in cases:
+        n += 1
+        d = tempfile.mkdtemp(prefix="vf_c19_")
+        path = os.path.join(d, "resolved.h")
+        with open(path, "w") as f:
+            f.write("\n".join(lines) + "\n")
+        saved = M.Conf.get_path
+        M.Conf.get_path = staticmethod(lambda *a, **k: path)
+        M.PreprocessorHexagon.behaviors = dict()
+        try:
+            pp = M.PreprocessorHexagon(path)
+            raised = None
+            try:
+                pp.load_insn_behavior()
+            except Exception as e:  # noqa
+                raised = type(e).__name__
+            got = dict(M.PreprocessorHexagon.behaviors)
+        finally:
+            M.Conf.get_path = staticmethod(saved)
+            M.PreprocessorHexagon.behaviors = dict()
+            import shutil
+            shutil.rmtree(d, ignore_errors=True)
+        key = f"loader:{name}"
+        if must_raise:
+            if raised is None:
+                rep.add(key, "violation", "malformed-not-rejected", f"a file with the malformed line {lines[1] if len(lines) > 1 else lines[0]!r} "
+                        f"loads without an exception (behaviours: {sorted(got)})", lines=lines)
+            else:
+                rep.add(key, "ok", "raises", raised)
+        elif raised is not None or got != want:
+            rep.add(key, "violation", "bundled-load", f"loader gives {raised or got!r}, expected {want!r}", lines=lines)
+        else:
+            rep.add(key, "ok")
+    return n
+
+
 def independent_split(line):
     """Own splitter of an 'insn(NAME, BODY)' line (no regex): first '(' / first ', ' / last ')'."""
     t = line[:-1] if line.endswith("\n") else line
@@ -254,6 +305,9 @@ def run(tier):
                 rep.add(f"compound:{txt!r}", "violation", "parts", f"{txt!r}: real function gives {got!r}, expected {want!r}", example=txt)
     rep.coverage["concrete_differential"] = dict(strings=nconc, disagreements=bad_lines,
                                                  note="bounded-exhaustive enumeration over a small alphabet (not solved); complements the symbolic queries")
+    # load_insn_behavior on generated resolved files: '#' lines skipped, every other line recovered, a malformed line raises
+    nload = _loader_cases(rep, PP)
+    rep.coverage["loader_files"] = nload
     # malformed bundled-like lines must raise
     for bad in ["insn A2_add, { }", "insn(A2_add { })", "", "insn(, { })", "xinsn(a, b", "insn(a,b)"]:
         try:
